@@ -457,6 +457,11 @@ func propC20(j *Job) {
 			}
 		}
 	}
+	// callbacks of a stream the peer has reset (it is no longer in the association's table) are
+	// entered without internal locks like those of any other stream
+	for _, mode := range modes {
+		j.Explore(fmt.Sprintf("RL/%s", mode.Name), peerResetReleaseScenario(withBase(mode.A, 228, 9, 4000), withBase(mode.B, 228, 99, 4000)), Budget{D: 1}, nil)
+	}
 	// several goroutines each read one message from the same stream; a retransmission fills a
 	// gap and makes as many messages readable at once as there are readers
 	for _, mode := range modes {
